@@ -11,6 +11,7 @@ from ..tables import (ElementTable, STANDARD_SYMBOLS, STANDARD_GROUP, STANDARD_P
 from ..bits import matcher_layout, charge_bounds
 from ..r_hygiene import rule_hygiene as _rule_hygiene
 from ..r_query import rule_isotope_setter as _rule_iso_setter
+from ..r_round8 import rule_class_cache_reads_no_instance_state as _r8_cc
 
 LEVEL = 'proof'
 PACK = 'chython/containers/_pack_v2.pyx'
@@ -301,6 +302,7 @@ def run(ck, repo):
     ck.floor('C18.4-duplicates', 118)
     _rule_hygiene(ck, repo, 'C18.H-dataflow-hygiene', 'C18')
     _rule_iso_setter(ck, repo, 'C18.3-isotope-setter')
+    _r8_cc(ck, repo, 'C18.D5-class-cache-scope')
 
 
 def first_diff(a, b):
